@@ -1,2 +1,86 @@
+//! C15: variant tags.
+
 use super::*;
-pub fn c15(_ctx: &Ctx, _subj: &dyn DynSubject, _ty: &Ty, _rep: &mut Report) {}
+use crate::faults::Placed;
+use vmodel::val::GenCfg;
+
+pub fn c15(ctx: &Ctx, subj: &dyn DynSubject, ty: &Ty, rep: &mut Report) {
+    let strat = with_entropy(strategy_for(ctx, ty, GenCfg { max_len: 4, long: false }), 96);
+    let max_sites = if ctx.tier == Tier::Thorough { 12 } else { 4 };
+    crate::runner::run_cases(ctx, subj, rep, strat, ctx.cases, &|case, log| {
+        let (v, ent) = split_entropy(case);
+        let mut ent = Ent::new(ent);
+        self_check(subj, v)?;
+        let (bytes, _) = ser_bytes(subj, v)?;
+        let enc = model_enc(ctx, subj, ty, v)?;
+        if enc.tags.is_empty() {
+            return Ok(());
+        }
+        // (1) every variant written maps back (both modes)
+        for t in &enc.tags {
+            log.classes.push(format!("variant:{}#{}", t.kind.split(' ').next().unwrap_or(""), t.value.min(20)));
+        }
+        match full_of(subj, &bytes) {
+            Ok(Ok(x)) if x == *v => {}
+            Ok(Ok(x)) => return Err(Fail::new("tag-roundtrip-full", format!("full copy maps the written tags to a different value: {}", x.show()))),
+            Ok(Err(e)) => return Err(Fail::new(&format!("tag-roundtrip-full-error:{}", err_name(&e)), format!("full copy of valid tags failed: {:?}", e))),
+            Err(p) => return Err(Fail::new(&format!("tag-roundtrip-full-panic:{}", panic_class(&p)), format!("full copy of valid tags panicked: {}", p))),
+        }
+        let pl = Placed::new(&bytes, 128, 0);
+        match guard(|| subj.eps(pl.bytes()).map(|o| o.val)) {
+            Ok(Ok(x)) if x == *v => {}
+            Ok(Ok(x)) => return Err(Fail::new("tag-roundtrip-eps", format!("ε-copy maps the written tags to a different value: {}", x.show()))),
+            Ok(Err(e)) => return Err(Fail::new(&format!("tag-roundtrip-eps-error:{}", err_name(&e)), format!("ε-copy of valid tags failed: {:?}", e))),
+            Err(p) => return Err(Fail::new(&format!("tag-roundtrip-eps-panic:{}", panic_class(&p)), format!("ε-copy of valid tags panicked: {}", p))),
+        }
+        // (2) foreign tags at a selection of sites
+        let mut sites: Vec<usize> = vec![0, enc.tags.len() - 1];
+        while sites.len() < max_sites.min(enc.tags.len()) + 2 {
+            sites.push(ent.pick(enc.tags.len()));
+        }
+        sites.sort();
+        sites.dedup();
+        log.nontrivial = true;
+        log.sample = Some(sample_json(subj, v, Some(&bytes), json!({"tag_sites": enc.tags.iter().take(6).map(|t| json!({"pos": t.pos, "width": t.width, "valid": t.n_valid, "kind": t.kind})).collect::<Vec<_>>() })));
+        for &si in &sites {
+            let site = &enc.tags[si];
+            let foreign: Vec<usize> = if site.width == 1 {
+                (site.n_valid..256).collect()
+            } else {
+                let mut f = vec![site.n_valid, site.n_valid + 1, 255, 256, 257, 1usize << 32, usize::MAX, usize::MAX - 1, 1usize << 63];
+                for _ in 0..8 {
+                    f.push(ent.u64() as usize);
+                }
+                f.retain(|t| *t >= site.n_valid);
+                f
+            };
+            for t in foreign {
+                let mut m = bytes.clone();
+                if site.width == 1 {
+                    m[site.pos] = t as u8;
+                } else {
+                    m[site.pos..site.pos + site.width].copy_from_slice(&t.to_ne_bytes());
+                }
+                log.extra_evals += 2;
+                log.extra_nontrivial.push(hash_sub(subj.name(), v, "c15", si as u64, t as u64));
+                let env = json!({"site": si, "pos": site.pos, "kind": site.kind, "tag": t});
+                match guard(|| subj.full(&mut std::io::Cursor::new(&m[..]))) {
+                    Ok(Err(deser::Error::InvalidTag(x))) if x == t => {}
+                    Ok(Err(deser::Error::InvalidTag(x))) => return Err(Fail::new("foreign-tag-full-payload", format!("foreign tag {} at {} site (offset {}): full copy reports InvalidTag({})", t, site.kind, site.pos, x)).env(env)),
+                    Ok(Err(e)) => return Err(Fail::new(&format!("foreign-tag-full-error:{}", err_name(&e)), format!("foreign tag {} at {} site: full copy returned {:?}", t, site.kind, e)).env(env)),
+                    Ok(Ok(x)) => return Err(Fail::new("foreign-tag-full-value", format!("foreign tag {} at {} site was mapped to a variant by full copy: {}", t, site.kind, x.show())).env(env)),
+                    Err(p) => return Err(Fail::new(&format!("foreign-tag-full-panic:{}", panic_class(&p)), format!("foreign tag {} at {} site: full copy panicked: {}", t, site.kind, p)).env(env)),
+                }
+                let pl = Placed::new(&m, 128, 0);
+                match guard(|| subj.eps(pl.bytes()).map(|o| o.val)) {
+                    Ok(Err(deser::Error::InvalidTag(x))) if x == t => {}
+                    Ok(Err(deser::Error::InvalidTag(x))) => return Err(Fail::new("foreign-tag-eps-payload", format!("foreign tag {} at {} site (offset {}): ε-copy reports InvalidTag({})", t, site.kind, site.pos, x)).env(env)),
+                    Ok(Err(e)) => return Err(Fail::new(&format!("foreign-tag-eps-error:{}", err_name(&e)), format!("foreign tag {} at {} site: ε-copy returned {:?}", t, site.kind, e)).env(env)),
+                    Ok(Ok(x)) => return Err(Fail::new("foreign-tag-eps-value", format!("foreign tag {} at {} site was mapped to a variant by ε-copy: {}", t, site.kind, x.show())).env(env)),
+                    Err(p) => return Err(Fail::new(&format!("foreign-tag-eps-panic:{}", panic_class(&p)), format!("foreign tag {} at {} site: ε-copy panicked: {}", t, site.kind, p)).env(env)),
+                }
+            }
+        }
+        Ok(())
+    });
+}
